@@ -30,6 +30,7 @@ type C12Arg struct {
 	Dashes int    `json:"dashes,omitempty"` // standard flag package: 1 or 2 dashes
 	Style  uint64 `json:"style"`            // spelling variation (number base, bool spelling, quoting)
 	Bad    bool   `json:"bad,omitempty"`    // carries a literal just outside the leaf type's range
+	Empty  bool   `json:"empty,omitempty"`  // collection flags: the occurrence is explicitly empty (-f= / -f "")
 }
 
 // C12Case is a config type, its template defaults, a lower and a higher
@@ -305,8 +306,50 @@ func genC12(src string) func(t *rapid.T) C12Case {
 			case k >= 7:
 				n = 2
 			}
+			// collection flags: sometimes only explicitly empty occurrences
+			// (over a non-empty template default), sometimes empty ones
+			// mixed with non-empty ones
+			emptyMode := 0
+			if l.Class.collection() {
+				switch k := rapid.IntRange(0, 9).Draw(t, "empty_mode"); {
+				case k < 2:
+					emptyMode = 1 // all empty
+				case k < 4:
+					emptyMode = 2 // mixed
+					if n < 2 {
+						n = rapid.IntRange(2, 3).Draw(t, "mixed_occurrences")
+					}
+				}
+			}
 			for i := 0; i < n; i++ {
-				args = append(args, genArg(t, l, src, false))
+				a := genArg(t, l, src, false)
+				switch emptyMode {
+				case 1:
+					a.Empty = true
+				case 2:
+					a.Empty = i == 0 || (i > 1 && rapid.Bool().Draw(t, "mixed_empty"))
+				}
+				args = append(args, a)
+			}
+			if emptyMode == 1 {
+				// make the template default of this leaf non-empty (unless it
+				// sits below a pointer struct that is nil in the defaults)
+				below := false
+				for np := range c.Data.DefNil {
+					if strings.HasPrefix(l.Path, np+".") {
+						below = true
+					}
+				}
+				if !below {
+					seed := c.Data.Defaults[l.Path]
+					if seed == 0 {
+						seed = rapid.Uint64Range(1, 1<<40).Draw(t, "nonempty_def_seed")
+					}
+					for shape.MakeValue(l.T, seed, shape.ValueOpts{}).Len() == 0 {
+						seed++
+					}
+					c.Data.Defaults[l.Path] = seed
+				}
 			}
 		}
 		if len(args) > 1 {
@@ -374,6 +417,12 @@ func c12Value(l leaf, a C12Arg) reflect.Value {
 		v := reflect.New(l.T).Elem()
 		v.SetBool(true)
 		return v
+	}
+	if a.Empty && l.Class.collection() {
+		if l.T.Kind() == reflect.Map {
+			return reflect.MakeMap(l.T)
+		}
+		return reflect.MakeSlice(l.T, 0, 0)
 	}
 	return argValue(l, a.Seed)
 }
@@ -657,6 +706,25 @@ func runC12(c C12Case) vrt.Verdict {
 			}
 		}
 		labelSet["given:"+l.Class.String()] = true
+		if l.Class.collection() {
+			allEmpty, anyEmpty := true, false
+			for _, v := range vs {
+				if v.Len() == 0 {
+					anyEmpty = true
+				} else {
+					allEmpty = false
+				}
+			}
+			switch {
+			case allEmpty:
+				labelSet["only-empty-occurrences:"+l.Class.String()] = true
+				if dv := shape.FieldByPath(shape.NewBuilder(T, shape.ValueOpts{}).Defaults(c.Data).Elem(), p); dv.IsValid() && dv.Len() > 0 {
+					labelSet["only-empty-over-nonempty-default:"+l.Class.String()] = true
+				}
+			case anyEmpty:
+				labelSet["empty-mixed-with-nonempty"] = true
+			}
+		}
 		if l.T.Name() != "" && l.T.PkgPath() != "" && l.T.PkgPath() != "time" && l.T.PkgPath() != "net" {
 			labelSet["given:named"] = true
 		}
@@ -925,8 +993,8 @@ func keys(m map[string]bool) []string {
 
 const c12Rule = "config struct types from the shape grammar restricted to flag-supported leaves (bool, all integer widths, floats, complex, string, time.Duration, time.Time, text-unmarshalable types, []string, integer slices, map[string]string, map[string][]string, map[string]struct{}, named scalars) plus a few unsupported bystander leaves and skipped fields, nested through structs, pointer structs and embedded structs (depth<=3, <=6 fields per struct); `dials` tags at any level, the source's own name tag (or \"-\") and, for pflag, shorthand tags on some leaves; template defaults and a lower and a higher static layer from per-leaf seeds; one of eleven name configs (default, library encoders, harness-defined encoders); " +
 	"who parses is drawn too: in two thirds of the cases the source parses inside Value() (NewSetWithArgs); otherwise the harness acts as a program that parses first — it calls Flags.Parse(argv) on the FlagSet NewSetWithArgs registered its flags in (both packages) or, for pflag, owns the FlagSet, hands it to NewSetWithFlagSet / NewDefaultSetWithFlagSet and parses it — after the constructor and before Value(); the expected values are the same (every occurrence accumulates exactly once); " +
-	"a command line rendered by the harness: any subset of flags, 1..3 occurrences each in any order, -f=v / -f v / bare and =value bool forms, one or two dashes (flag) or long/shorthand forms (pflag), number bases, quoting styles, optionally a `--` terminator and, in a quarter of the cases, one literal just outside a leaf type's range. " +
-	"Oracle: registered flag names equal the names known by construction (source tag verbatim, else dials tags / field-name words along the path joined by the tag encoder; untagged embedded structs contribute nothing); every advertised default reads back (harness parsers) as the template's value; Value() sets exactly the leaves whose flag appeared before `--`, scalars to the last value, collections to first-occurrence-replaces-then-accumulate; stacked with VerifCompose between the two layers every leaf is higher, else flag, else lower, else default; the out-of-range literal makes Value() fail (or already the program's own Parse, when the program parses). " +
+	"a command line rendered by the harness: any subset of flags, 1..3 occurrences each in any order (collection flags: in a fifth of the cases only explicitly empty occurrences `-f=` / `-f \"\"` over a template default made non-empty, in another fifth empty occurrences mixed with non-empty ones), -f=v / -f v / bare and =value bool forms, one or two dashes (flag) or long/shorthand forms (pflag), number bases, quoting styles, optionally a `--` terminator and, in a quarter of the cases, one literal just outside a leaf type's range. " +
+	"Oracle: registered flag names equal the names known by construction (source tag verbatim, else dials tags / field-name words along the path joined by the tag encoder; untagged embedded structs contribute nothing); every advertised default reads back (harness parsers) as the template's value; Value() sets exactly the leaves whose flag appeared before `--`, scalars to the last value, collections to first-occurrence-replaces-then-accumulate (an empty occurrence is an occurrence: it replaces the default like any first occurrence and adds nothing later, so only-empty occurrences yield the empty non-nil collection for every helper: []string of both packages, signed and unsigned integer slices, sets, map[string]string, map[string][]string); stacked with VerifCompose between the two layers every leaf is higher, else flag, else lower, else default; the out-of-range literal makes Value() fail (or already the program's own Parse, when the program parses). " +
 	"non-trivial = at least one flag given and at least one not given on flag-bearing leaves that the lower layer sets; distinct = distinct case JSON"
 
 var c12Assumptions = []string{
